@@ -239,7 +239,8 @@ def _check_main(ctx, rep: Report):
         bad.append(f"{len(calls)} class writes (expected one)")
     else:
         c = calls[0]
-        tgt = ast.unparse(c.args[0])
+        from .c17 import _dealias
+        tgt = _dealias(g.node, c.args[0])          # a local alias of the target class is looked through
         if not tgt.startswith("self.spec_cls"):
             bad.append(f"dissolves onto `{tgt}` (the accessing class): a parent's helper is planted in a not-yet-bootstrapped subclass, which then skips its own helper")
         if ast.unparse(c.args[1]) != "self.name" or ast.unparse(c.args[2]) != "self.method":
